@@ -569,7 +569,7 @@ pub fn parse_doc_edges(bytes: &[u8]) -> Option<Vec<(usize, usize, u64)>> {
         if e.len() != 3 {
             return None;
         }
-        out.push((crate::keys::kout(e[0].as_u64()? as usize), crate::keys::kout(e[1].as_u64()? as usize), e[2].as_u64()?));
+        out.push((crate::keys::kout_raw(e[0].as_u64()? as usize), crate::keys::kout_raw(e[1].as_u64()? as usize), e[2].as_u64()?));
     }
     Some(out)
 }
